@@ -180,8 +180,9 @@ def pick_family(fam: T.Dict[str, T.Any], rnd: random.Random, n: int, exhaustive:
     f2t = [p for p in f2 if p['tests']]
     picks = rnd.sample(coll, min(len(coll), n // 4)) + rnd.sample(f1ok, min(len(f1ok), n // 4)) \
         + rnd.sample(f2t, min(len(f2t), n // 4))
-    rest = n - len(picks)
-    picks += rnd.sample(f2, min(len(f2), rest))
+    chosen = {id(p) for p in picks}
+    others = [p for p in f2 if id(p) not in chosen]
+    picks += rnd.sample(others, min(len(others), max(0, n - len(picks))))
     return picks + f3
 
 
